@@ -41,6 +41,48 @@ func s1Subscripts() []BashCase {
 			cases = append(cases, BashCase{Key: fmt.Sprintf("S1/len=%d/computed=%v", L, computed), Prog: SingleFile(stmts)})
 		}
 	}
+	// S1b: the same index values written as expressions of every shape (difference from the length, sums
+	// in both orders, groups, products, call results, a negative literal subtracted)
+	shapes := []struct {
+		name string
+		mk   func(v int, L int) Expr
+	}{
+		{"n-minus-k", func(v, L int) Expr { return bin("-", vr("n"), il(int64(L-v))) }},
+		{"len-minus-k", func(v, L int) Expr { return bin("-", Len{vr("s")}, il(int64(L-v))) }},
+		{"group-n-minus-k", func(v, L int) Expr { return Group{bin("-", vr("n"), il(int64(L-v)))} }},
+		{"k-plus-z", func(v, L int) Expr { return bin("+", il(int64(v)), vr("z")) }},
+		{"n-minus-m", func(v, L int) Expr { return bin("-", bin("-", vr("n"), vr("m")), il(int64(L-v-2))) }},
+		{"n-minus-1-minus-k", func(v, L int) Expr { return bin("-", bin("-", vr("n"), il(1)), il(int64(L-v-1))) }},
+		{"k-times-one", func(v, L int) Expr { return bin("*", il(int64(v)), vr("one")) }},
+		{"call", func(v, L int) Expr { return call("at", il(int64(v))) }},
+		{"minus-negative", func(v, L int) Expr { return bin("-", vr("z"), il(int64(-v))) }},
+		{"n-plus-negative", func(v, L int) Expr { return bin("+", vr("n"), il(int64(v-L))) }},
+		{"half-sum", func(v, L int) Expr { return bin("/", bin("+", il(int64(v)), il(int64(v))), il(2)) }},
+	}
+	for _, sh := range shapes {
+		for _, L := range []int{5, 12} {
+			stmts := []Stmt{fn("at", []Param{{"k", TInt}}, []Type{TInt}, ret(vr("k"))), def("s", sl(alpha[:L])), def("z", il(0)), def("one", il(1)), def("m", il(2)), def("n", Len{vr("s")})}
+			for a := 0; a <= L; a++ {
+				args := []Expr{il(int64(a)), framed(Substr{"s", sh.mk(a, L), nil}), framed(Substr{"s", nil, sh.mk(a, L)})}
+				if a < L {
+					args = append(args, framed(Index{"s", sh.mk(a, L)}))
+				}
+				stmts = append(stmts, pr(args...))
+				line := []Expr{}
+				for b := a; b <= L; b++ {
+					line = append(line, framed(Substr{"s", sh.mk(a, L), sh.mk(b, L)}), framed(Substr{"s", il(int64(a)), sh.mk(b, L)}))
+					if len(line) >= 6 {
+						stmts = append(stmts, pr(line...))
+						line = nil
+					}
+				}
+				if len(line) > 0 {
+					stmts = append(stmts, pr(line...))
+				}
+			}
+			cases = append(cases, BashCase{Key: fmt.Sprintf("S1b/%s/len=%d", sh.name, L), Prog: SingleFile(stmts)})
+		}
+	}
 	// subscripts of subscripts, of parameters and of call results stored in variables
 	stmts := []Stmt{
 		fn("mid", []Param{{"p", TString}, {"a", TInt}, {"b", TInt}}, []Type{TString}, ret(Substr{"p", vr("a"), vr("b")})),
@@ -171,6 +213,9 @@ func s4Copy() []BashCase {
 		"in-function":            {fn("cp", []Param{{"d", TSliceInt}, {"s", TSliceInt}}, []Type{TInt}, def("n", Copy{"d", vr("s")}), ret(vr("n"))), def("x", SliceLit{TInt, nil}), def("y", SliceLit{TInt, []Expr{il(7), il(8), il(9)}}), pr(call("cp", vr("x"), vr("y")), Len{vr("x")}, Index{"x", il(2)})},
 		"global-dst-in-function": {VarDecl{Names: []string{"gd"}, Type: TSliceString}, fn("fill", nil, nil, def("n", Copy{"gd", SliceLit{TString, []Expr{sl("p q"), sl("r")}}}), pr(vr("n"))), callS("fill"), pr(Len{vr("gd")}, framed(Index{"gd", il(0)}))},
 		"result-unused":          {def("a", SliceLit{TInt, nil}), ExprStmt{Copy{"a", SliceLit{TInt, []Expr{il(1), il(2), il(3)}}}}, pr(Len{vr("a")}, Index{"a", il(2)})},
+		"result-unused-in-function": {fn("fill", []Param{{"d", TSliceString}}, nil, ExprStmt{Copy{"d", SliceLit{TString, []Expr{sl("a b"), sl("c")}}}}), def("x", SliceLit{TString, nil}), def("alias", vr("x")), callS("fill", vr("x")), pr(Len{vr("x")}, framed(Index{"alias", il(0)}), framed(Index{"x", il(1)}))},
+		"result-unused-in-blocks":   {def("a", SliceLit{TInt, nil}), def("b", SliceLit{TInt, nil}), def("c", SliceLit{TInt, nil}), ifs(cmp("==", Len{vr("a")}, il(0)), ExprStmt{Copy{"a", SliceLit{TInt, []Expr{il(1), il(2)}}}}), forUp("i", 2, ExprStmt{Copy{"b", SliceLit{TInt, []Expr{vr("i"), vr("i"), vr("i")}}}}), Switch{Tag: il(1), Cases: []SwitchCase{{E: il(1), Body: []Stmt{ExprStmt{Copy{"c", vr("b")}}}}}}, pr(Len{vr("a")}, Index{"a", il(1)}, Len{vr("b")}, Index{"b", il(2)}, Len{vr("c")}, Index{"c", il(0)})},
+		"result-unused-global-in-function": {VarDecl{Names: []string{"gd"}, Type: TSliceInt}, fn("fill", nil, nil, ExprStmt{Copy{"gd", SliceLit{TInt, []Expr{il(4), il(5)}}}}), callS("fill"), pr(Len{vr("gd")}, Index{"gd", il(1)})},
 		"from-literal-and-call":  {fn("mk", nil, []Type{TSliceInt}, ret(SliceLit{TInt, []Expr{il(4), il(5)}})), def("a", SliceLit{TInt, []Expr{il(0)}}), pr(Copy{"a", call("mk")}, Index{"a", il(0)}, Index{"a", il(1)})},
 		"twelve":                 {VarDecl{Names: []string{"a"}, Type: TSliceInt}, forUp("i", 12, SliceSet{"a", vr("i"), vr("i")}), VarDecl{Names: []string{"b"}, Type: TSliceInt}, pr(Copy{"b", vr("a")}, Len{vr("b")}, Index{"b", il(9)}, Index{"b", il(10)}, Index{"b", il(11)})},
 	}
